@@ -38,7 +38,7 @@ SIM="$D/target/sim/release/cteepbd-sim"
 for P in "${PROPS[@]}"; do
   ARGS=()
   case "$P" in C05|C10|C16|C17|C18) ARGS=(--sut-release "$D/target/sut/release/cteepbd" --shim "$VERIF/target/iofault.so");; esac
-  if [ "$TIER" = thorough ] && [ "$P" = C16 ]; then
+  if [ "$P" = C16 ]; then
     (cd "$D/repo" && cargo build --offline --bin cteepbd --target-dir "$D/target/sut" >"$RES/sut-debug-build.log" 2>&1) && ARGS+=(--sut-debug "$D/target/sut/debug/cteepbd")
   fi
   rcw=0
